@@ -280,11 +280,36 @@ pub fn c01_case(case: &WorldCase) -> CaseResult {
     if n.gas_refunded > 0 {
         o.labels.push("refund>0");
     }
+    // opcode coverage of the generator: one label per opcode executed in this case
+    for (op, n) in ev.stats.ops.iter().enumerate() {
+        if *n > 0 {
+            o.labels.push(op_label(op as u8));
+        }
+    }
     // non-trivial: executed >= 1 instruction and (nested call/create or a state change beyond fees)
     let nested = ev.stats.ops[0xf1] + ev.stats.ops[0xf2] + ev.stats.ops[0xf4] + ev.stats.ops[0xfa] + ev.stats.ops[0xf0] + ev.stats.ops[0xf5] > 0;
     let storage_changed = ev.pre.iter().any(|(a, acc)| post.get(a).map(|p| p.storage != acc.storage || p.code != acc.code).unwrap_or(true)) || post.len() != ev.pre.len();
     o.nontrivial = ev.stats.steps >= 1 && (nested || storage_changed);
     Ok(o)
+}
+
+/// "op:0xNN" labels (leaked once: labels are &'static str).
+pub fn op_label(op: u8) -> &'static str {
+    static NAMES: std::sync::OnceLock<Vec<&'static str>> = std::sync::OnceLock::new();
+    NAMES.get_or_init(|| (0..256).map(|i| &*Box::leak(format!("op:0x{i:02x}").into_boxed_str())).collect())[op as usize]
+}
+
+/// Every opcode defined for legacy code up to Prague (own list).
+pub fn legacy_opcodes() -> Vec<u8> {
+    let mut v: Vec<u8> = vec![];
+    v.extend(0x00..=0x0b);
+    v.extend(0x10..=0x1d);
+    v.push(0x20);
+    v.extend(0x30..=0x4a);
+    v.extend(0x50..=0x5f);
+    v.extend(0x60..=0xa4);
+    v.extend([0xf0, 0xf1, 0xf2, 0xf3, 0xf4, 0xf5, 0xfa, 0xfd, 0xfe, 0xff]);
+    v
 }
 
 pub fn c01(ctx: &mut Ctx) {
@@ -301,6 +326,8 @@ pub fn c01(ctx: &mut Ctx) {
         "differential",
         &["tx:legacy", "tx:2930", "tx:1559", "tx:4844", "tx:7702", "tx:create", "success", "revert", "halt", "CREATE", "CREATE2", "SELFDESTRUCT-cancun+", "SELFDESTRUCT-pre-cancun", "nested-call", "depth>=3", "access-list", "refund>0"],
     );
+    let ops: Vec<&'static str> = legacy_opcodes().into_iter().map(op_label).collect();
+    ctx.expect_labels("differential", &ops);
     ctx.assumptions.push("precompile bodies are shared with revm-precompile inside this check (they are checked on their own in C23/C24); OSAKA/EOF has no reference and is excluded by the property".into());
 }
 
